@@ -374,3 +374,5 @@ func handName(o handFileOpts) string {
 }
 
 type iterT = unixfsiter.UnixFSDir__Itr
+
+func cidLink(c cid.Cid) ipld.Link { return cidlink.Link{Cid: c} }
